@@ -3,7 +3,10 @@
 
 package psatoken
 
-import cbor "github.com/fxamacker/cbor/v2"
+import (
+	cbor "github.com/fxamacker/cbor/v2"
+	"github.com/veraison/eat"
+)
 
 var (
 	em, emError = initCBOREncMode()
@@ -32,4 +35,22 @@ func init() {
 	if dmError != nil {
 		panic(dmError)
 	}
+}
+
+// oidProfileNameFromCBOR returns the name of the profile declared by the
+// claims in buf if their eat_profile claim identifies the profile by an OID
+// (which EAT encodes as a byte string rather than a text string). Such a
+// profile is registered under the dotted-decimal form of the OID. If the
+// claim is anything else, origErr is returned.
+func oidProfileNameFromCBOR(buf []byte, origErr error) (string, error) {
+	selector := struct {
+		Profile *eat.Profile `cbor:"265,keyasint"`
+	}{}
+
+	if dm.Unmarshal(buf, &selector) != nil ||
+		selector.Profile == nil || !selector.Profile.IsOID() {
+		return "", origErr
+	}
+
+	return selector.Profile.Get()
 }
